@@ -1713,6 +1713,9 @@ func (h *Handler) serveRecord(w http.ResponseWriter, r *http.Request, user meta2
 		handlerStat.Write400ErrRequests.Incr()
 		return
 	}
+	if !h.requireRepositoryWrite(w, user, req.repository, "write log records") {
+		return
+	}
 
 	logInfo, err := h.validateRetentionPolicy(req.repository, req.logStream)
 	if err != nil {
@@ -1886,6 +1889,9 @@ func (h *Handler) serveUpload(w http.ResponseWriter, r *http.Request, user meta2
 			zap.String("logStream", logStream))
 		h.httpErrorRsp(w, ErrorResponse(err.Error(), LogReqErr), http.StatusBadRequest)
 		handlerStat.Write400ErrRequests.Incr()
+		return
+	}
+	if !h.requireRepositoryWrite(w, user, repository, "upload log records") {
 		return
 	}
 
@@ -2833,6 +2839,9 @@ func (h *Handler) getMarshalFieldLen(i interface{}) int {
 func (h *Handler) serveContextQueryLog(w http.ResponseWriter, r *http.Request, user meta2.User) {
 	repository := mux.Vars(r)[Repository]
 	logStream := mux.Vars(r)[LogStream]
+	if !h.requireRepositoryDataRead(w, user, repository, "query log context") {
+		return
+	}
 	if err := h.ValidateAndCheckLogStreamExists(repository, logStream); err != nil {
 		h.Logger.Error("query log scan request error! ", zap.Error(err), zap.Any("r", r))
 		h.httpErrorRsp(w, ErrorResponse(err.Error(), LogReqErr), http.StatusBadRequest)
@@ -3236,6 +3245,9 @@ func IncQuerySkippingError(err error) bool {
 }
 
 func (h *Handler) serveRecallData(w http.ResponseWriter, r *http.Request, user meta2.User) {
+	if !h.requireAdmin(w, user, "recall logstream") {
+		return
+	}
 	logStream := mux.Vars(r)[LogStream]
 	repository := mux.Vars(r)[Repository]
 	if err := ValidateRepoAndLogStream(repository, logStream); err != nil {
